@@ -6,10 +6,10 @@
    positions 0..cap+|cs|-1 with the model's push and the choice sequence cs; [all_choices] the
    product of the bounds the model requests; [retained_count]/[total] the enumeration-free
    counting functions.  [exec step site ..] is the interleaving machine of Conc.v.            *)
-From Coq Require Import List NArith ZArith Bool.
+From Coq Require Import List NArith ZArith Bool Permutation.
 Import ListNotations.
 Require Import MV.Common.Interleave MV.C16.Model MV.C16.Spec MV.C16.Conc MV.C16.ExecGen MV.C16.Retention
-               MV.C16.Proofs MV.C16.ProofsDrain MV.C16.ProofsUniform MV.C16.ProofsConc MV.C16.ProofsConc2 MV.C16.ExecProofs.
+               MV.C16.Proofs MV.C16.ProofsDrain MV.C16.ProofsUniform MV.C16.ProofsConc MV.C16.ProofsConc2 MV.C16.ProofsConc3 MV.C16.ExecProofs.
 Open Scope N_scope.
 
 Theorem C16_model_meets_spec : forall cap h, snd (run true (new cap) h) = spec_outs (N.of_nat cap) h.
@@ -92,16 +92,9 @@ Proof. exact uniform_retention_refuted_before_fix. Qed.
 Theorem C16_total_refuted_before_fix : exists cap h, In (MPush (PPanic 0)) (snd (run false (new cap) h)).
 Proof. exact total_refuted_before_fix. Qed.
 
-(* Full statement intended by DESIGN (NOT proved):
-     forall c = CThr cap progs sched, known_class c = None ->
-       forall rk o, agrees rk c o = true -> spec_ok rk c o = true
-   i.e. on every schedule without a late push, every drain reports n = the number of pushes of its
-   window, len = min n cap, values of that window only (all of them in order if n <= cap).
-   Proved below, for EVERY schedule (late push or not), any number of threads and programs: no
-   push panics, every drain reports len = min(the count it read, cap) and yields at most len
-   values.  Missing: that the count read and the slots read are those of the window's pushes
-   (needs per-thread program-counter invariants tying in-flight pushes to the ghost counters). *)
-Theorem C16_concurrent_accounting_except_late_push_partial : forall cap ps sched,
+(* every schedule, late push or not, any number of threads and programs: no push panics, every
+   drain reports len = min(the count it read, cap) and yields at most len values *)
+Theorem C16_drains_well_formed_every_schedule : forall cap ps sched,
   let c := fst (exec step site (init_config cap ps) sched) in
   forall t l x, nth_error (snd c) t = Some l -> In x (results l) ->
     match x with
@@ -110,6 +103,56 @@ Theorem C16_concurrent_accounting_except_late_push_partial : forall cap ps sched
     | MEmpty _ => True
     end.
 Proof. exact drains_well_formed_every_schedule. Qed.
+
+(* every schedule, late push or not: the count of a side = the number of fetch_adds (1602) that
+   landed on it since its last reset (1609) *)
+Theorem C16_count_is_ledger_length_every_schedule : forall cap ps sched sd,
+  let c := fst (exec step site (init_config cap ps) sched) in
+  count (res (side (fst c) sd)) = N.of_nat (length (led (side (fst c) sd))).
+Proof. exact count_is_ledger_length_every_schedule. Qed.
+
+(* every drain a thread returned is in the ghost log (with the ledger W and the started list St of
+   its side at the moment it read the count) *)
+Theorem C16_returned_drains_are_logged : forall cap ps sched,
+  let c := fst (exec step site (init_config cap ps) sched) in
+  forall u x d, nth_error (snd c) u = Some x -> In (MConsume d) (results x) ->
+                exists W St, In (d, W, St) (glog (fst c)).
+Proof. exact returned_drains_are_logged. Qed.
+
+(* THE concurrent clause.  Every schedule, thread count and program in which no 1606 step retired a
+   side with a push in flight on it ([late] clear): for every completed drain d, with
+   St = the values of the pushes that STARTED (1601) on its side since that side's previous count
+   reset and W = the same values in the order of their fetch_adds (1602):
+   the count it read is |St|; len = min(|St|, cap); it yielded at most len values, all of them
+   values of St, and exactly the first ones of W if |St| <= cap; sample rate 1 if |St| <= cap else
+   cap/|St|.  (The reset at 1609 empties both lists: the next window of the side starts empty.) *)
+Theorem C16_concurrent_accounting_except_late_push : forall cap ps sched,
+  let c := fst (exec step site (init_config cap ps) sched) in
+  late (fst c) = false ->
+  forall d W St, In (d, W, St) (glog (fst c)) ->
+    Permutation St W /\
+    d_unsampled d = N.of_nat (length St) /\
+    d_len d = N.min (d_unsampled d) (N.of_nat cap) /\
+    N.of_nat (length (d_vals d)) <= d_len d /\
+    (forall v, In v (d_vals d) -> In v St) /\
+    (d_unsampled d <= N.of_nat cap -> d_vals d = firstn (length (d_vals d)) W) /\
+    sample_rate d = (if d_unsampled d <=? N.of_nat cap then (1, 1) else (N.of_nat cap, d_unsampled d)).
+Proof. exact accounting_except_late_push. Qed.
+
+(* the same for the run a threaded case of the correspondence check denotes (schedule, then the
+   round-robin tail), stated with the decidable class predicate on the case *)
+Theorem C16_concurrent_accounting_outside_known_class : forall cap progs sched,
+  known_class (CThr cap progs sched) = None ->
+  let c := fst (exec_full step site rr_fuel (init_config (N.to_nat cap) progs) (map N.to_nat sched)) in
+  forall d W St, In (d, W, St) (glog (fst c)) ->
+    Permutation St W /\
+    d_unsampled d = N.of_nat (length St) /\
+    d_len d = N.min (d_unsampled d) cap /\
+    N.of_nat (length (d_vals d)) <= d_len d /\
+    (forall v, In v (d_vals d) -> In v St) /\
+    (d_unsampled d <= cap -> d_vals d = firstn (length (d_vals d)) W) /\
+    sample_rate d = (if d_unsampled d <=? cap then (1, 1) else (cap, d_unsampled d)).
+Proof. exact accounting_outside_known_class. Qed.
 
 (* every schedule: at most one thread is between swap.lock and the unlock, and while a drain is
    between its side swap and its count reset, use_primary selects the other side (a push that
